@@ -199,6 +199,7 @@ func Run(r *rt.Run) error {
 		named{"floats+single", ToBatches([][]Pt{Seqs["floats"], Seqs["single"]}, false)},
 		named{"single+ints", ToBatches([][]Pt{Seqs["single"], Seqs["ints"]}, false)},
 		named{"ooo+floats", ToBatches([][]Pt{Seqs["ooo"], Seqs["floats"]}, false)},
+		named{"keys+grid", ToBatches([][]Pt{Seqs["keys"], Seqs["grid"]}, false)},
 		named{"carry", ToBatches(CarrySeqs, false)},
 	)
 	nRand := 2
@@ -214,7 +215,9 @@ func Run(r *rt.Run) error {
 	// 1. every single node on every input, four stream and two batch source groupings
 	// srcS2: two explicit dimensions (from() hands its sorted tag-name slice to every point)
 	srcS2 := Source{Dims: []string{"p", "h"}}
-	srcs := []Source{srcS, {Dims: nil}, {Dims: []string{"h"}, ByName: true}, srcS2, srcB, {Batch: true, Dims: []string{"h"}, ByName: true}}
+	// srcT: from().truncate(7s) moves every time onto the 7s grid of Go's zero time
+	srcT := Source{Dims: []string{"h"}, Trunc: 7}
+	srcs := []Source{srcS, {Dims: nil}, {Dims: []string{"h"}, ByName: true}, srcS2, srcT, srcB, {Batch: true, Dims: []string{"h"}, ByName: true}}
 	for _, v := range vs {
 		for _, s := range srcs {
 			if s.Batch {
@@ -226,6 +229,10 @@ func Run(r *rt.Run) error {
 					x.add(chain(s, v), ins, in.name)
 				}
 			} else {
+				// truncate(7s) makes elapsed times of 7 units: a derivative would not be a dyadic rational
+				if s.Trunc != 0 && v.K == "derivative" {
+					continue
+				}
 				for _, in := range sIn {
 					x.add(chain(s, v), in.ins, in.name)
 				}
